@@ -56,7 +56,7 @@ _ctr = [0]
 
 
 class _Shim:
-    def __init__(self, limit=1500):
+    def __init__(self, limit=5000):
         self.n = 0
         self.limit = limit
 
